@@ -61,13 +61,13 @@ structure Stage where
 the pre-check (meaningful when the pre-check passed) -/
 def scOrders (alts : List Nat) (orders : List (List Nat)) : List (List Nat) := (isSC orders alts.length).2
 
-/-- everything up to the LP call; `v_1 = sc_orders[0]`, `v_n = sc_orders[-1]`: the two ends of the
-single-crossing arrangement (NOT the first and last stored order) -/
-def stage (alts : List Nat) (orders : List (List Nat)) : Stage :=
-  let (isSc, _) := isSC orders alts.length
+/-- everything up to the LP call for a given outcome `(isSc, s)` of the pre-check
+`is_SC, sc_orders = is_single_crossing(instance)`; `v_1 = sc_orders[0]`, `v_n = sc_orders[-1]`: the two ends of
+the single-crossing arrangement (NOT the first and last stored order) -/
+def stageOn (alts : List Nat) (isSc : Bool) (s : List (List Nat)) : Stage :=
   if !isSc then { sc := false, coloured := none, grey := [] }
   else
-    match (scOrders alts orders).head?, (scOrders alts orders).getLast? with
+    match s.head?, s.getLast? with
     | some v1, some vn =>
       let cMinus := v1.headD 0
       let cPlus := vn.headD 0
@@ -76,6 +76,10 @@ def stage (alts : List Nat) (orders : List (List Nat)) : Stage :=
       | none => { sc := true, coloured := none, grey := [] }
       | some g => { sc := true, coloured := some g, grey := alts.filter (fun c => colour g c == 3) }
     | _, _ => { sc := true, coloured := none, grey := [] }
+
+/-- everything up to the LP call, with the pre-check of the model of `is_single_crossing` -/
+def stage (alts : List Nat) (orders : List (List Nat)) : Stage :=
+  stageOn alts (isSC orders alts.length).1 (scOrders alts orders)
 
 /-! ## The axis -/
 
@@ -245,17 +249,22 @@ structure LP where
   /-- what `_one_euclidean_gen_sets` returns if the LP turns out feasible -/
   sets : GenSets
 
-/-- the linear programme `is_one_euclidean` hands to the solver; `none` when the function returns
-`(False, None)` before reaching it (pre-check or colouring failed).  `alts` sorted increasingly. -/
-def lp (alts : List Nat) (orders : List (List Nat)) : Option LP :=
-  match (stage alts orders).coloured, (scOrders alts orders).head?, (scOrders alts orders).getLast? with
+/-- the linear programme `is_one_euclidean` hands to the solver for a given outcome `(isSc, s)` of the
+pre-check; `none` when the function returns `(False, None)` before reaching it (pre-check or colouring
+failed).  `alts` sorted increasingly. -/
+def lpOn (alts : List Nat) (orders : List (List Nat)) (isSc : Bool) (s : List (List Nat)) : Option LP :=
+  match (stageOn alts isSc s).coloured, s.head?, s.getLast? with
   | some g, some v1, some vn =>
     let cplus := colouredAlts alts g
     let axis := axisOf g v1 vn cplus
     let prefs := restrictPreferences orders cplus
     some { cplus := cplus, axis := axis, preferences := prefs,
            constraints := lpConstraints prefs axis,
-           sets := genSets v1 cplus ((stage alts orders).grey) }
+           sets := genSets v1 cplus ((stageOn alts isSc s).grey) }
   | _, _, _ => none
+
+/-- … with the pre-check of the model of `is_single_crossing` -/
+def lp (alts : List Nat) (orders : List (List Nat)) : Option LP :=
+  lpOn alts orders (isSC orders alts.length).1 (scOrders alts orders)
 
 end PrefVerif.Euclid
